@@ -48,6 +48,8 @@ def run(ctx):
                 "replaying all permutations of candidate bags. distinct_nontrivial = ordered pairs reported 'higher'")
     ctx.assumptions = ["the code's own relation is tested against the order laws; a different but lawful tie-break does not alarm"]
     ctx.build()
+    # unbounded companion: any rank-induced relation is a strict weak order and the selection scan is never outranked (TLAPS)
+    ctx.tlaps("OrderLemmas")
     full = ctx.tier != "quick"
     runs = [(False, True)] + ([(True, False)] if full else [])
     for (fullpool, triples) in runs:
